@@ -25,7 +25,7 @@ BIDS = ("b1", "bü-ö", "aw-watcher-window_host", "o'brien \"q\" %_;--")  # the 
 NEV = (0, 1, 3, 101)
 BDATA = (None, {"k": "v"}, {"cfg": {"inner": [1, None, {"x": "ü"}]}, "n": 1.5})
 BOUNDS = {
-    "quick": {"bucket_id_subsets": 16, "events_per_bucket": list(NEV), "bucket_data": 3, "name": ["absent", "given"], "profiles": ["testing", "normal"], "other_profile_legacy_file": "present and absent for every case"},
+    "quick": {"bucket_id_subsets": 16, "events_per_bucket": list(NEV), "bucket_data": 3, "name": ["absent", "given"], "profiles": ["testing", "normal"], "other_profile_legacy_file": "present and absent for every case (when present, a decoy `<name>.v2.backup.db` with other content lies beside the real legacy file as well)"},
     "thorough": {"as": "quick", "plus": "250 and 1001 events per bucket"},
 }
 RULE = (
@@ -39,7 +39,7 @@ ASSUMPTIONS = [
 _G = {}
 UTC = timezone.utc
 T0 = datetime(2018, 5, 5, 5, 5, 5, 123000, tzinfo=UTC)
-EDATA = [{"app": "x", "title": "héllo"}, {"n": 1, "nested": {"l": [1, 2]}}, {}, {"q": "it's \"q\""}]
+EDATA = [{"app": "x", "title": "héllo"}, {"n": 1, "nested": {"l": [1, 2]}}, {}, {"q": "it's \"q\""}, {"title": "cut in the middle of an emoji \ud83d"}]
 
 
 def mk_events(n, salt):
@@ -99,6 +99,10 @@ def run_config(root, cfg):
 
     if cfg["other"]:
         write_legacy(not testing, ("other-profile-bucket",), 50)
+        # ... and a sibling file in the data dir whose name passes the loose 'name.v2.*' filter and sorts
+        # before the real legacy file: an old backup with other content -- it is not the legacy database
+        _, p0 = write_legacy(testing, ("backup-only-bucket",), 70)
+        os.replace(p0, p0[: -len(".db")] + ".backup.db")
     want, legacy_path = write_legacy(testing, cfg["bids"], 0)
     h0 = sha(legacy_path)
     try:
